@@ -194,6 +194,27 @@ func bytesOf(v value) value {
 
 func init() {
 	in := func(name string, f libIntrinsic) { intrinsics[name] = f }
+	// internal/bytealg.IndexByte is assembly: concrete bytes only
+	in("internal/bytealg.IndexByte", func(fr *frame, a []value) (value, bool) {
+		b, ok := a[0].([]value)
+		if !ok {
+			return nil, false
+		}
+		c, ok := a[1].(uint8)
+		if !ok {
+			return nil, false
+		}
+		for i, x := range b {
+			xb, isB := x.(uint8)
+			if !isB {
+				return nil, false
+			}
+			if xb == c {
+				return i, true
+			}
+		}
+		return -1, true
+	})
 	in("os.MkdirTemp", func(fr *frame, a []value) (value, bool) {
 		m := fr.m
 		f := m.fs()
